@@ -237,6 +237,7 @@ func init() {
 		ruleKindList(prog, rep, func(fd *ast.FuncDecl) bool { return twinScope(fd) == "C05" }, 10)
 		ruleResultAlias(prog, rep, "jp")
 		ruleOperandSet(prog, rep, 10, "jp")
+		ruleSliceArray(prog, rep, 50, "jp")
 		ruleCarry(prog, rep, 100, nil, "jp") // what a filter operand is evaluated against is chosen per operand
 		ruleFullRange(prog, rep, 3, "jp")
 		ruleArgConsist(prog, rep, 20, "jp")
@@ -256,6 +257,7 @@ func init() {
 		ruleKindList(prog, rep, func(fd *ast.FuncDecl) bool { return twinScope(fd) != "C13" }, 40)
 		ruleFullRange(prog, rep, 3, "jp")
 		ruleCarry(prog, rep, 100, nil, "jp")
+		ruleSliceArray(prog, rep, 50, "jp")
 		ruleArgConsist(prog, rep, 20, "jp") // the copies of one evaluator for the container types call their helpers with the same arguments
 	}
 	rules["C13"] = func(prog *Program, rep *Report) {
